@@ -1,8 +1,26 @@
 package ss2022
 
-import "math/bits"
+import (
+	"fmt"
+	"math/bits"
+)
 
 const swfBlockBits = bits.UintSize
+
+// MaxSlidingWindowFilterSize is the maximum sliding window filter size accepted in configurations.
+//
+// The filter's ring is allocated per session and its length is computed in 64-bit arithmetic,
+// so the size must be kept well below the point where the computation overflows.
+const MaxSlidingWindowFilterSize = 1 << 20
+
+// CheckSlidingWindowFilterSize checks that the configured sliding window filter size
+// does not exceed [MaxSlidingWindowFilterSize]. Zero selects [DefaultSlidingWindowFilterSize].
+func CheckSlidingWindowFilterSize(size uint64) error {
+	if size > MaxSlidingWindowFilterSize {
+		return fmt.Errorf("sliding window filter size %d exceeds the maximum of %d", size, MaxSlidingWindowFilterSize)
+	}
+	return nil
+}
 
 // SlidingWindowFilter maintains a sliding window of uint64 counters.
 type SlidingWindowFilter struct {
